@@ -67,4 +67,33 @@ def ImagePair.partialValidSrcGrid (p : ImagePair) (model : Model) (kh kw : Nat) 
     Bool :=
   (p.src r c).isSome && p.keepErodedSrc model kh kw n0 n1 m r c
 
+/-- the source-grid partial mask computed from what was read: the source through `(sinR, sinC)`, the reference through
+    `(rinR, rinC)` (a block of a multi-block run, or the whole run with `srcWin` and the reference window meeting it) -/
+def ImagePair.partialValidSrcGridOn (p : ImagePair) (model : Model) (kh kw : Nat) (n0 n1 : Rat) (m : Resampling)
+    (sinR sinC rinR rinC : Win1) (r c : Int) : Bool :=
+  let src' : ImgO := p.src.restrict sinR sinC
+  let ref' : ImgO := p.ref.restrict rinR rinC
+  let refOn : ImgO := fun i j => resample2 m p.Rr p.Rc p.Sr p.Sc ref' i j
+  let b : Block :=
+    { h := p.Sr.n.toNat, w := p.Sc.n.toNat
+      src := fun i j => (src' i j).getD 0, ref := fun i j => (refOn i j).getD 0
+      sm := fun i j => (src' i j).isSome, rm := fun i j => (refOn i j).isSome }
+  let cover : Int → Int → Bool := fun r c =>
+    (refUnder p.Sr p.Rr r).indices.all fun a => (refUnder p.Sc p.Rc c).indices.all fun b' => (ref' a b').isSome
+  let par : Int → Int → Option Params := fun r c =>
+    if 0 ≤ r ∧ r < p.Sr.n ∧ 0 ≤ c ∧ c < p.Sc.n then
+      fitAt b model kh kw false none n0 n1 (fun _ _ => none) r.toNat c.toNat
+    else none
+  (src' r c).isSome &&
+    (List.range (kh + 2)).all fun (di : Nat) => (List.range (kw + 2)).all fun (dj : Nat) =>
+      cover (r - (((kh + 2) / 2 : Nat) : Int) + di) (c - (((kw + 2) / 2 : Nat) : Int) + dj) &&
+        (par (r - (((kh + 2) / 2 : Nat) : Int) + di) (c - (((kw + 2) / 2 : Nat) : Int) + dj)).isSome
+
+/-- the same as computed by block `(kr, kc)` of a source-grid run -/
+def ImagePair.partialValidSrcGridByBlock (p : ImagePair) (model : Model) (kh kw : Nat) (n0 n1 : Rat) (m : Resampling)
+    (sr sc vr vc : Int) (kr kc : Nat) (r c : Int) : Bool :=
+  let br := p.blockRowsSrc sr vr kr
+  let bc := p.blockColsSrc sc vc kc
+  p.partialValidSrcGridOn model kh kw n0 n1 m br.pin bc.pin br.oin bc.oin r c
+
 end Homonim
